@@ -29,7 +29,7 @@ func parseJSON(b []byte) interface{} {
 }
 
 func checkC08(c *hx.Ctx) {
-	c.Rule("client-built create/update/recover requests and models over all key types and both hash algorithms: (1) 6 re-serializations each (member order, whitespace, \\u escapes, number spellings) must parse to the same suffix / pass the same hash checks / resolve identically; (2) commitment(key)==hash(decoded reveal(key)) via the library vs ref; (3) IsValidModelMultihash accepted exactly when the multihash is H_alg(JCS(model)) for the algorithm it names (right hash, other algorithm, truncated digest, wrong length prefix, unknown code, hash of non-canonical bytes, bit flips); (4) unanchored long-form DIDs: valid one resolves, every single-character substitution (3 substitutes per position) / insertion / deletion of the encoded segment, non-canonical re-encodings every single-member alteration of suffix data and delta, and every alteration of the suffix segment (also through a handler configured with label, domain and alias) must be rejected; (5) an anchored create whose well-formed delta was substituted resolves to an empty document without update commitment and the substituted key cannot update it, and an anchored operation whose reveal value is not the hash of the key in its signed data has no effect; non-trivial = alteration or re-serialization that differs bytewise from the original; distinct = distinct altered inputs")
+	c.Rule("client-built create/update/recover requests and models over all key types and both hash algorithms: (1) 6 re-serializations each (member order, whitespace, \\u escapes, number spellings) must parse to the same suffix / pass the same hash checks / resolve identically; (2) commitment(key)==hash(decoded reveal(key)) via the library vs ref; (3) IsValidModelMultihash accepted exactly when the multihash is H_alg(JCS(model)) for the algorithm it names (right hash, other algorithm, truncated digest, wrong length prefix, unknown code, hash of non-canonical bytes, bit flips); (4) unanchored long-form DIDs: valid one resolves, every single-character substitution (3 substitutes per position) / insertion / deletion of the encoded segment, non-canonical re-encodings every single-member alteration of suffix data and delta, and every alteration of the suffix segment (also through a handler configured with label, domain and alias) must be rejected; (5) an anchored create whose well-formed delta was substituted resolves to an empty document without update commitment and the substituted key cannot update it, and an anchored operation whose reveal value is not the hash of the key in its signed data has no effect; (6) the intake parser and the reader of anchored batch files name the same DID (both algorithm orders, suffix data with and without type); (7) creates posted one after the other through the REST handler: what the writer and the unpublished store keep is still the posted request with its suffix after later requests were served; non-trivial = alteration or re-serialization that differs bytewise from the original; distinct = distinct altered inputs")
 	nCases := c.N(400, 4000)
 	root := c.Rng("cases")
 	seeds := make([]uint64, nCases)
@@ -423,7 +423,20 @@ func checkC08(c *hx.Ctx) {
 		// ---------- (6) one suffix per suffix data, whichever component computes it: the intake parser and the reader of
 		// anchored batch files must name the same DID (protocol enabling both algorithms, in both orders)
 		if i%8 == 0 {
-			for _, algs := range [][]uint{{ref.SHA512, ref.SHA256}, {ref.SHA256, ref.SHA512}} {
+			// the same for a create whose suffix data carries the optional type member (part of the suffix)
+			_, crTyped, terr := NewCDid(r.Split("did-typed"), code, types, 300, false, []interface{}{patchAddServices(svcEntry("st", "web", "https://example.com/st"))}, nil, genOrigin(r), fmt.Sprintf("t%d", i%9))
+			if terr != nil {
+				c.Violation("C08 client.NewCreateRequest refused valid inputs: "+terr.Error(), nil)
+				return
+			}
+			for ai, algs := range [][]uint{{ref.SHA512, ref.SHA256}, {ref.SHA256, ref.SHA512}, {ref.SHA512, ref.SHA256}, {ref.SHA256, ref.SHA512}} {
+				cr, tree := cr, tree
+				if ai >= 2 {
+					cr = crTyped
+					tree = map[string]interface{}{}
+					_ = json.Unmarshal(cr.Req, &tree)
+					c.Count("suffix_agreement_with_suffix_data_type")
+				}
 				pm := hx.BaseProtocol()
 				pm.MultihashAlgorithms = algs
 				pm.MaxDeltaSize, pm.MaxOperationSize = 9000, 20000
@@ -459,7 +472,10 @@ func checkC08(c *hx.Ctx) {
 			c.Sample(2, map[string]interface{}{"long_form_did": didPrefix + seg, "key_type": types[0], "multihash": code})
 		}
 	})
+	c08ThroughREST(c)
+	c.Floor("rest_runs_with_several_creates", 10)
 	c.Floor("suffix_agreement_between_parser_and_batch_reader", 20)
+	c.Floor("suffix_agreement_with_suffix_data_type", 10)
 	c.Floor("anchored_create_with_substituted_delta", 20)
 	c.Floor("anchored_recover_with_substituted_delta", 20)
 	c.Floor("longform_valid_resolved", 20)
